@@ -76,6 +76,9 @@ package core
 //@ func NewUint64MetricSupplierWrapper
 //@   ensures[C20] wraps: isfunc(result, "core.NewUint64MetricSupplierWrapper$1") && *captured(result, "core.NewUint64MetricSupplierWrapper$1", 0) == s
 //@   assigns nothing
+//@ func NewFloat64MetricSupplierWrapper
+//@   ensures[C20] wraps: isfunc(result, "core.NewFloat64MetricSupplierWrapper$1") && *captured(result, "core.NewFloat64MetricSupplierWrapper$1", 0) == s
+//@   assigns nothing
 //@ func NewIntMetricSupplierWrapper
 //@   ensures[C20] wraps: isfunc(result, "core.NewIntMetricSupplierWrapper$1") && *captured(result, "core.NewIntMetricSupplierWrapper$1", 0) == s
 //@   assigns nothing
